@@ -349,7 +349,18 @@ func (r *reader) initNodes(tr io.Reader) error {
 	}
 	md := make(map[uint32]*metadataEntry)
 	st := make(map[int64]map[int64]uint32)
+	var initErr error
 	if err := r.db.Batch(func(tx *bolt.Tx) (err error) {
+		// bolt re-runs a failed batch function alone. This function can't be re-run because it
+		// has consumed the JSON decoder, so keep reporting the first error.
+		if initErr != nil {
+			return initErr
+		}
+		defer func() {
+			if err != nil {
+				initErr = err
+			}
+		}()
 		nodes, err := getNodes(tx, r.fsID)
 		if err != nil {
 			return err
@@ -388,6 +399,10 @@ func (r *reader) initNodes(tr io.Reader) error {
 					b, err = getNodeBucketByID(nodes, id)
 					if err != nil {
 						return fmt.Errorf("cannot get hardlink destination %q ==> %q (%d): %w", ent.Name, ent.LinkName, id, err)
+					}
+					if mode, _ := binary.Uvarint(b.Get(bucketKeyMode)); os.FileMode(uint32(mode)).IsDir() {
+						// A directory reachable from its own descendant makes the tree cyclic.
+						return fmt.Errorf("%q is a hardlink to the directory %q", ent.Name, ent.LinkName)
 					}
 					numLink, _ := binary.Varint(b.Get(bucketKeyNumLink))
 					if err := putInt(b, bucketKeyNumLink, numLink+1); err != nil {
